@@ -155,6 +155,18 @@ func (r *Run) Sample(s any) {
 func (r *Run) Violate(signature, what string, replay any) {
 	r.mu.Lock()
 	defer r.mu.Unlock()
+	if r.Part != "" && !strings.HasPrefix(signature, "pool/") {
+		// this binary runs as a part of C12 (pool ownership): findings of the part's own functional oracle
+		// belong to the part's own property, whose check runs the same scenarios with the same oracle
+		// (and with the same poison-on-release); here they are only counted
+		n, _ := r.Coverage["functional_findings_left_to_the_parts_own_check"].(map[string]int)
+		if n == nil {
+			n = map[string]int{}
+			r.Coverage["functional_findings_left_to_the_parts_own_check"] = n
+		}
+		n[signature]++
+		return
+	}
 	r.vcount[signature]++
 	if _, ok := r.violations[signature]; ok {
 		return
